@@ -140,6 +140,15 @@ func chainTx(n *Node, contracts *[]common.Address, t M) ([]byte, error) {
 	switch str(t, "k") {
 	case "send":
 		return cosmos(200000, banktypes.NewMsgSend(from.Addr, w.Acct(str(t, "to")).Addr, sdk.NewCoins(coin(str(t, "amt")))))
+	case "drain":
+		// everything but a remainder that is smaller than any fee
+		bal := n.App.BankKeeper.SpendableCoins(n.Ctx(), from.Addr).AmountOf(utils.BaseDenom)
+		fee := sdkmath.NewIntFromBigInt(new(big.Int).Mul(gasPrice, big.NewInt(200000)))
+		amt := bal.Sub(fee).Sub(coin(str(t, "keep")).Amount)
+		if !amt.IsPositive() {
+			return nil, fmt.Errorf("nothing to drain")
+		}
+		return cosmos(200000, banktypes.NewMsgSend(from.Addr, w.Acct(str(t, "to")).Addr, sdk.NewCoins(sdk.NewCoin(utils.BaseDenom, amt))))
 	case "multisend":
 		a := coin(str(t, "amt"))
 		half := sdk.NewCoin(a.Denom, a.Amount.QuoRaw(2))
